@@ -2,7 +2,7 @@
   C07 — Deal payments are exact and independent of the settlement schedule.
   Property theorems over the model `BA.Market` (actors/market/src/{lib,state}.rs).
 -/
-import BA.Lemmas.MarketSpecs
+import BA.Lemmas.MarketPres
 
 namespace BA.Market
 open BA
@@ -303,6 +303,58 @@ theorem timeout_only_after_start_settle {s : State} {id : Nat} {d : Proposal}
         · exact ((h5 (by omega)).2).mp rfl
       | false =>
         simp [reg.proposals, hp] at hgone
+
+/-! ### Over whole histories (any interleaving of all operations on all deals) -/
+
+/-- **Credited so far, whatever the schedule.**  After *any* history — deposits, withdrawals,
+    publications, activations, settlement calls at any epochs in any grouping, cron ticks,
+    terminations, for any number of deals and parties — the total credited to the provider of a
+    live deal (the ghost ledger `paid`, written exactly where `transfer_balance` moves the funds,
+    see `settle_pays_window`) is `price × (settled-up-to − start)`, where settled-up-to is the start
+    for a deal never settled and `max start last_updated` otherwise: it depends on the last
+    settlement epoch only, not on how many settlements there were or where. -/
+theorem credited_so_far (ops : List Op) (id : Nat) (d : Proposal)
+    (h : alookup id (run init ops).proposals = some d) :
+    bal (run init ops).paid id =
+      d.price * (luTo d (alookup id (run init ops).states) - d.startE) :=
+  (inv_reachable ops).ledg.live id d h
+
+/-- **Every deal that ever ended, ended with exact totals.**  After any history, each closing
+    record satisfies: *completed* — the provider was credited the whole fee `price × (end − start)`,
+    both collaterals were returned, nothing burnt, and it happened at or after the end epoch;
+    *terminated* at `t < end` — credited `price × (clamp t − start)`, the client got back its
+    collateral and `price × (end − max t start)`, credited + refunded = the whole fee, the
+    provider's collateral was burnt in full and none returned; *timed out* (never activated, at
+    `t ≥ start`) — nothing credited, the client got back the whole fee and its collateral, the
+    provider's collateral was burnt in full. -/
+theorem every_ending_exact (ops : List Op) (id : Nat) (c : Closed)
+    (h : (id, c) ∈ (run init ops).closed) : ClosedOk c :=
+  (inv_reachable ops).ledg.closed id c h
+
+/-- reading of `every_ending_exact` for completed deals -/
+theorem completed_paid_in_full (ops : List Op) (id : Nat) (c : Closed)
+    (h : (id, c) ∈ (run init ops).closed) (hk : c.kind = .completed) :
+    c.paid = c.deal.price * (c.deal.endE - c.deal.startE) ∧ c.burnt = 0 ∧
+    c.clientCollRefund = c.deal.clientColl ∧ c.providerCollRefund = c.deal.providerColl := by
+  have := every_ending_exact ops id c h
+  simp only [ClosedOk, hk] at this
+  exact ⟨this.1, this.2.2.2.2.1, this.2.2.1, this.2.2.2.1⟩
+
+/-- reading of `every_ending_exact` for early terminations and missed activations: the provider's
+    collateral is burnt in full and the client gets everything back that was not paid -/
+theorem slashed_in_full (ops : List Op) (id : Nat) (c : Closed)
+    (h : (id, c) ∈ (run init ops).closed) (hk : c.kind ≠ .completed) :
+    c.burnt = c.deal.providerColl ∧ c.providerCollRefund = 0 ∧
+    c.clientCollRefund = c.deal.clientColl ∧ c.paid + c.feeRefund = c.deal.fee := by
+  have := every_ending_exact ops id c h
+  cases hkind : c.kind with
+  | completed => exact absurd hkind hk
+  | terminated =>
+    simp only [ClosedOk, hkind] at this
+    exact ⟨this.2.2.2.2.2.1, this.2.2.2.2.1, this.2.2.2.1, this.2.2.1⟩
+  | timedOut =>
+    simp only [ClosedOk, hkind] at this
+    exact ⟨this.2.2.2.2.1, this.2.2.2.1, this.2.2.1, by rw [this.1, this.2.1]; omega⟩
 
 /-! ### Non-vacuity: concrete histories -/
 
